@@ -12,8 +12,12 @@
     [dates_monotone t]: local dates never decrease with the instant (true when all timestamps carry one UTC offset).
     Vocabulary: Model/ComputedSpec.v.  Proofs: Proofs/FilterProofs.v, Proofs/ComputedProofs.v, Proofs/C10Proofs.v. *)
 From Coq Require Import List ZArith Bool Lia Sorted.
-From RP2V Require Import Base.Prelude Base.Time Base.Dec Model.Types Model.Generated Model.Txn Model.Matcher Model.Pipeline
-  Model.Computed Model.ComputedSpec Proofs.FilterProofs Proofs.ComputedProofs Proofs.C10Proofs.
+From RP2V Require Import Base.Prelude Base.Time Base.Dec Base.Assoc Model.Types Model.Generated Model.Txn Model.Matcher Model.MatchWf Model.Pipeline
+  Model.Computed Model.ComputedSpec Model.NumberSpec Proofs.FilterProofs Proofs.ComputedProofs Proofs.C10Proofs
+  Proofs.PipelineWf Proofs.NumberingProofs Proofs.NumberingLift Proofs.NumberingExamples
+  Proofs.DecProofs Proofs.FiatSumProofs Proofs.C04Reassembly Proofs.PriceProofs Proofs.SoldPctProofs.
+From Coq Require Import QArith Qabs.
+Open Scope Z_scope.
 Import ListNotations.
 Open Scope Z_scope.
 
@@ -116,12 +120,169 @@ Theorem C10_yearly_whole_years : forall period from_day from_day' to_day allow e
   cd_yearly cd = filter (fun l => year_of_day from_day <=? y_year l) (cd_yearly cd').
 Proof. exact c10_yearly_whole_years. Qed.
 
+(** * "fraction counts reflect all history up to the to-date": functional specification of the numbering
+    ([numbering] / [num_step] of Model/Computed.v = GainLossSet._sort_entries; vocabulary: Model/NumberSpec.v;
+    proofs: Proofs/NumberingProofs.v, Proofs/NumberingLift.v; examples: Proofs/NumberingExamples.v).
+
+    [cut] = the fractions (sorted by event instant) up to the first one dated after the to-date.
+    [ev_count r l] / [lot_count r l] = number of fractions of [l] of the taxable event / acquired lot with sheet row [r].
+    The event numbering keeps one running amount and index and never looks at the event of a fraction, so it needs
+    [ev_blocks cut]: the list is a concatenation of blocks, one per event, each a non-empty run of fractions of that
+    event with positive amounts summing to the event's crypto_balance_change, different blocks = different rows
+    (without it fractions are silently mis-numbered: [numbering_needs_blocks]).  The lot numbering keeps per-lot
+    dictionaries and checks itself: [lots_ok]. *)
+
+(** the k-th fraction carries the number of EARLIER fractions of the cut with the same event (lot); the tables hold the
+    number of fractions of each event (lot) in the cut -- also for lots not fully consumed (count taken from the
+    pending table) -- and no entry for rows without fractions *)
+Theorem C10_numbering_spec : forall to_day gls evf lotf evt lott,
+  let cut := take_until g_day to_day gls in
+  ev_blocks cut -> numbering to_day gls = Ok (evf, lotf, evt, lott) ->
+  length evf = length cut /\ length lotf = length cut /\
+  (forall r, aget_d O r evt = ev_count r cut) /\ (forall r, aget_d O r lott = lot_count r cut) /\
+  forall k g, nth_error cut k = Some g ->
+    nth_error evf k = Some (ev_count (ev_row g) (firstn k cut)) /\
+    nth_error lotf k = Some (match g_lot g with None => None | Some a => Some (lot_count (i_row a) (firstn k cut)) end) /\
+    aget (ev_row g) evt = Some (ev_count (ev_row g) cut) /\
+    (forall a, g_lot g = Some a -> aget (i_row a) lott = Some (lot_count (i_row a) cut)).
+Proof. exact numbering_labels. Qed.
+
+(** when it succeeds and when it fails (always with the RP2ValueError of a sanity check): on event blocks the run
+    succeeds exactly when, at every fraction, the running total taken from its lot does not exceed the lot's amount and
+    a lot whose total has reached its amount gets no later fraction *)
+Theorem C10_numbering_succeeds_iff : forall to_day gls,
+  let cut := take_until g_day to_day gls in
+  ev_blocks cut ->
+  (lots_ok cut -> exists evt lott,
+     numbering to_day gls = Ok (ev_idx cut, lot_idx cut, evt, lott) /\
+     count_table (fun r => ev_count r cut) evt /\ count_table (fun r => lot_count r cut) lott) /\
+  (~ lots_ok cut -> numbering to_day gls = Err EValue).
+Proof. exact numbering_blocks. Qed.
+Theorem C10_numbering_errors_are_value_errors : forall to_day gls e, numbering to_day gls = Err e -> e = EValue.
+Proof. exact numbering_err_kind. Qed.
+(** with positive amounts and one lot per row, [lots_ok] says: no lot is over-consumed *)
+Theorem C10_lots_ok_meaning : forall l, (forall g, In g l -> 0 < g_amt g) -> lot_rows_consistent l -> (lots_ok l <-> lots_within l).
+Proof. exact lots_ok_iff_within. Qed.
+(** the lot labels need no hypothesis at all: whenever the numbering succeeds they are right and [lots_ok] holds *)
+Theorem C10_lot_labels_unconditional : forall to_day gls evf lotf evt lott,
+  let cut := take_until g_day to_day gls in
+  numbering to_day gls = Ok (evf, lotf, evt, lott) ->
+  lots_ok cut /\ lotf = lot_idx cut /\ count_table (fun r => lot_count r cut) lott.
+Proof. exact numbering_lot_labels. Qed.
+
+(** the to-date cut never splits an event (all fractions of an event carry the event's date), so the housekeeping for
+    "the last non-exhausted taxable event" finds nothing pending; what it would do otherwise: credit the pending count
+    to the event of the last fraction THAT HAS A LOT -- right if that is the pending event, RP2ValueError if it is an
+    earlier event, no entry if no fraction has a lot *)
+Theorem C10_cut_keeps_events_whole : forall to_day l, ev_blocks l -> ev_blocks (take_until g_day to_day l).
+Proof. exact take_until_ev_blocks. Qed.
+Theorem C10_partial_event_quirk : forall to_day gls l c e,
+  take_until g_day to_day gls = l ++ c ->
+  ev_blocks l -> ev_partial_block e c -> (forall g, In g l -> ev_row g <> t_row e) -> lots_ok (l ++ c) ->
+  match fold_left last_lot (l ++ c) None with
+  | Some g =>
+    if ev_row g =? t_row e
+    then exists evt lott, numbering to_day gls = Ok (ev_idx (l ++ c), lot_idx (l ++ c), evt, lott) /\
+           count_table (fun r => ev_count r (l ++ c)) evt /\ count_table (fun r => lot_count r (l ++ c)) lott
+    else numbering to_day gls = Err EValue
+  | None =>
+    exists evt lott, numbering to_day gls = Ok (ev_idx (l ++ c), lot_idx (l ++ c), evt, lott) /\
+      count_table (fun r => ev_count r l) evt /\ aget (t_row e) evt = None /\ count_table (fun r => lot_count r (l ++ c)) lott
+  end.
+Proof. exact numbering_partial_event. Qed.
+
+(** lifted to [compute]: the labels (index, count) shown for the k-th fraction of a windowed run are those of its
+    position j among ALL fractions up to the to-date ([cut] does not depend on the from-date), not among the shown ones *)
+Theorem C10_fraction_counts_reflect_history : forall period from_day to_day allow exs hos t fs cd,
+  compute period from_day to_day allow exs hos t fs = Ok cd ->
+  let cut := take_until g_day to_day (cd_all_gls cd) in
+  ev_blocks cut ->
+  length (cd_evfrac cd) = length (cd_gls cd) /\ length (cd_lotfrac cd) = length (cd_gls cd) /\
+  cd_gls cd = filter (fun g => from_day <=? g_day g) cut /\
+  forall k g, nth_error (cd_gls cd) k = Some g ->
+    exists j, nth_error cut j = Some g /\ length (filter (fun g => from_day <=? g_day g) (firstn j cut)) = k /\
+      nth_error (cd_evfrac cd) k = Some (ev_label cut j g) /\
+      nth_error (cd_lotfrac cd) k = Some (lot_label cut j g).
+Proof. exact compute_fraction_labels. Qed.
+
+(** the matcher's output has the block structure (and never over-consumes a lot), so on a history built from the
+    sheet the numbering succeeds for every to-date with the specified result ... *)
+Theorem C10_matcher_output_is_event_blocks : forall sched t evs fs gls,
+  taxable_events t = Ok evs -> wf (t_ins t) sched (map event_of evs) ->
+  fractions_of gen_always_repush sched t = Ok fs -> all_fractions t fs = Some gls ->
+  ev_blocks gls /\ gls = match resolve_all evs (t_ins t) fs with Some l => l | None => [] end.
+Proof. exact matcher_fractions_blocks. Qed.
+Theorem C10_numbering_never_fails_after_matching : forall sched t evs fs gls to_day,
+  taxable_events t = Ok evs -> wf (t_ins t) sched (map event_of evs) ->
+  fractions_of gen_always_repush sched t = Ok fs -> all_fractions t fs = Some gls ->
+  let cut := take_until g_day to_day gls in
+  exists evt lott, numbering to_day gls = Ok (ev_idx cut, lot_idx cut, evt, lott) /\
+    count_table (fun r => ev_count r cut) evt /\ count_table (fun r => lot_count r cut) lott.
+Proof. exact matcher_numbering_total. Qed.
+(** ... and end to end, for the whole computation on a parser-built history (hypotheses = those of C01/C02:
+    [pipeline_wf]): the 'k/n' labels of the reports *)
+Theorem C10_fraction_counts_end_to_end : forall h sched t period from_day to_day allow exs hos cd,
+  build h = Ok t -> in_rows_increasing h -> amounts_positive h ->
+  (forall evs, taxable_events t = Ok evs -> hist_same_instant_same_year evs /\ hist_sched_covers sched evs) ->
+  NoDup (map fst sched) ->
+  compute_tax period from_day to_day allow exs hos sched t = Ok cd ->
+  let cut := take_until g_day to_day (cd_all_gls cd) in
+  ev_blocks (cd_all_gls cd) /\ ev_blocks cut /\ lots_ok cut /\
+  cd_gls cd = filter (fun g => from_day <=? g_day g) cut /\
+  forall k g, nth_error (cd_gls cd) k = Some g ->
+    exists j, nth_error cut j = Some g /\ length (filter (fun g => from_day <=? g_day g) (firstn j cut)) = k /\
+      nth_error (cd_evfrac cd) k = Some (ev_label cut j g) /\
+      nth_error (cd_lotfrac cd) k = Some (lot_label cut j g).
+Proof. exact compute_tax_fraction_labels. Qed.
+
+(** * "average price reflects all history up to the to-date": total fiat cost including fees of the acquisitions seen up to
+    the to-date (31-digit left-to-right sum) divided by their total amount (exact), 0 when there is none; the acquisitions
+    seen are exactly those dated up to the to-date when dates are monotone; the from-date does not occur *)
+Theorem C10_average_price_spec : forall to_day ins d, price_per_unit to_day ins = Ok d ->
+  let l := take_until in_day to_day ins in
+  match l with
+  | [] => d = dzero
+  | _ => ddiv (dsum (map i_fiat_in_with_fee l)) (of_grid (sumZ (map i_crypto_in l))) = Some d
+  end.
+Proof. exact price_spec. Qed.
+Theorem C10_average_price_all_history : forall to_day ins, day_sorted in_day ins ->
+  take_until in_day to_day ins = filter (fun a => in_day a <=? to_day) ins.
+Proof. exact price_all_history. Qed.
+Theorem C10_average_price_accuracy : forall to_day ins d, price_per_unit to_day ins = Ok d ->
+  let l := take_until in_day to_day ins in
+  l <> [] ->
+  let S := dsum (map i_fiat_in_with_fee l) in
+  let C := of_grid (sumZ (map i_crypto_in l)) in
+  (Qabs (to_q d - to_q S / to_q C) <= EPS * Qabs (to_q S / to_q C))%Q /\
+  ((2 * nq (length l) * EPS <= 1)%Q ->
+   (Qabs (to_q S - qsum (map i_fiat_in_with_fee l)) <= nq (length l) * (2 * EPS) * qabs_sum (map i_fiat_in_with_fee l))%Q).
+Proof. exact price_accuracy. Qed.
+
+(** the in-lot sold percentage (cited by C13) is the one figure that DOES depend on the window, by construction: for a lot
+    dated inside the window it is the 31-digit sum of amount / lot amount over the SHOWN fractions taken from it
+    ([sold_from from to r g]: [g] is taken from the lot of row [r] and that lot is dated in the window); lots dated
+    outside the window have no entry *)
+Theorem C10_sold_percentage_over_shown_fractions : forall period from_day to_day allow exs hos t fs cd,
+  compute period from_day to_day allow exs hos t fs = Ok cd ->
+  forall r, aget r (cd_sold_pct cd) = match filter (sold_from from_day to_day r) (cd_gls cd) with
+                                      | [] => None
+                                      | mine => Some (dsum (map lot_pct mine))
+                                      end.
+Proof. exact compute_sold_pct. Qed.
+
 (** Non-vacuity (Proofs/C10Proofs.v, history A of Proofs/L4Examples.v: unfiltered run [cdA], window 2020-05-01 ..
     2020-07-07 [cdA_win], to-date only [cdA_to]; evaluated by the kernel): [tA_time_sorted], [tA_dates_monotone],
     [c10_views_instance], [c10_independent_instance], [c10_from_instance] instantiate the theorems above;
     [c10_example_window]: the window shows 4 of 7 fractions, a lot bought before the window is consumed inside it,
     the labels are "1 of 2", "2 of 2" for the sale split over two lots, the balances differ from the unfiltered
-    run's (to-date) and the summary has the three 2020 lines that have a fraction up to the to-date. *)
+    run's (to-date) and the summary has the three 2020 lines that have a fraction up to the to-date.
+    Numbering (Proofs/NumberingExamples.v): [labels_instance] instantiates C10_fraction_counts_end_to_end on history A with
+    the window above ([hA_rows_increasing], [hA_amounts_positive], [hA_events_ok] discharge its hypotheses);
+    [labels_values]: the specified labels of the 4 fractions up to the to-date, equal to cd_evfrac / cd_lotfrac;
+    [labels_pending_lot]; [numbering_needs_blocks]: interleaved events are mis-numbered without an error;
+    [numbering_overdrawn_lot]: event blocks, [lots_ok] false, RP2ValueError; [numbering_partial_quirks]: the three cases of
+    C10_partial_event_quirk.  Average price (Proofs/PriceProofs.v): [price_instance] (history A: 2150 / 16); sold percentage
+    (Proofs/SoldPctProofs.v): [sold_pct_instance], [sold_pct_window]. *)
 
 Print Assumptions C10_views_inside_window.
 Print Assumptions C10_views_exactly_the_window.
@@ -133,3 +294,18 @@ Print Assumptions C10_unfiltered_shows_all.
 Print Assumptions C10_matching_ignores_window.
 Print Assumptions C10_from_date_does_not_enter.
 Print Assumptions C10_yearly_whole_years.
+Print Assumptions C10_numbering_spec.
+Print Assumptions C10_numbering_succeeds_iff.
+Print Assumptions C10_numbering_errors_are_value_errors.
+Print Assumptions C10_lots_ok_meaning.
+Print Assumptions C10_lot_labels_unconditional.
+Print Assumptions C10_cut_keeps_events_whole.
+Print Assumptions C10_partial_event_quirk.
+Print Assumptions C10_fraction_counts_reflect_history.
+Print Assumptions C10_matcher_output_is_event_blocks.
+Print Assumptions C10_numbering_never_fails_after_matching.
+Print Assumptions C10_fraction_counts_end_to_end.
+Print Assumptions C10_average_price_spec.
+Print Assumptions C10_average_price_all_history.
+Print Assumptions C10_average_price_accuracy.
+Print Assumptions C10_sold_percentage_over_shown_fractions.
